@@ -283,6 +283,12 @@ var vC11TDelays = []int{33, 97, 513, 1025, 1985, 2017, 2049, 2529, 3009, 4001, 4
 func vC11TGen(r *rand.Rand, caseNo int) *vC11TScenario {
 	sc := &vC11TScenario{eofAt: -1, stallAt: -1}
 	nf := 1 + r.Intn(5)
+	tmpl := r.Intn(8)
+	if os.Getenv("VERIF_TIER") == "thorough" && tmpl >= 4 {
+		// longer sessions in the thorough tier (not with a closing / stalling client: their
+		// instants sit at 16 mod 32 and the residue argument above needs at most five misses)
+		nf = 1 + r.Intn(8)
+	}
 	mkFrame := func(i int, miss bool, delay int, big bool) *vC11TFrame {
 		fr := &vC11TFrame{miss: miss, delay: delay, big: big}
 		m := new(dns.Msg)
@@ -313,7 +319,6 @@ func vC11TGen(r *rand.Rand, caseNo int) *vC11TScenario {
 		}
 		return n
 	}
-	tmpl := r.Intn(8)
 	switch tmpl {
 	case 0: // the idle / first-read bound, exactly around it
 		sc.mode = "tcp-idle-boundary"
